@@ -41,6 +41,10 @@ package store
 // The tx pool hands out / takes back scratch *Tx holders: pool-internal state only (assumed frame).
 //@ func (*ImmuStore).fetchAllocTx
 //@   assigns internal
+// (con-c07b, additive, ASSUMED pool invariant: newTx allocates the holder with its header; the pool never holds the
+// store's serialization buffer)
+//@   ensures c07b_tx: r1 == nil ==> r0 != nil && r0.header != nil
+//@   ensures c07b_sep: r1 == nil ==> !sameobj(s._txbs, r0) && !sameobj(s._txbs, r0.header)
 
 //@ func (*ImmuStore).releaseAllocTx
 //@   assigns internal
